@@ -15,5 +15,6 @@ CONSTANTS
   MaxSignFail = 4
   History = FALSE
   Matrix = TRUE
+  Script = "none"
 INVARIANTS Emit
 CHECK_DEADLOCK FALSE
